@@ -186,9 +186,10 @@ def run(ck, facts, tier):
                          "SCC-head test must be `subgoal_minimums.positive >= dfn` and the node's stack_depth must be cleared first")
         # rollback_to and move_to_cache get the same dfn
         args = set()
-        for c in list(calls(sg.thir, SG + "move_to_cache")) + list(calls(sg.thir, SG + "rollback_to")):
+        sgt = facts.thir(RC + "solve_goal")          # helpers spliced in
+        for c in list(calls(sgt, SG + "move_to_cache")) + list(calls(sgt, SG + "rollback_to")):
             args.add(var_name(c["args"][1]))
-        if args == {"dfn"}:
+        if len(args) == 1 and None not in args:
             ck.ok(R, "solve_goal:both-configurations-discard-from-dfn")
         else:
             ck.violation(R, "solve_goal:both-configurations-discard-from-dfn", sg.where(), "cache-on and cache-off paths must drop the same node set (from dfn): %s" % args)
